@@ -244,6 +244,16 @@ PROPS["C08"] = dict(
     jobs=[J("TestC08_Fairness", 400, 2500, shards=14), J("TestC08_PlainVSS", 3, 10, shards=4)],
 )
 
+PROPS["C10"] = dict(
+    title="DKG instances follow the documented single-use state machine",
+    rule=("protocol x role (dealer / non-dealer) x (n <= 5, t); a call sequence of up to 25 (thorough 40) calls over {Start, NextTimeout, End, HandleBroadcastMsg, HandlePrivateMsg, ForceDisqualify, Running} with in-range origins and out-of-range ones (-1, n, n+1, 255, 256, 2^20, -2^31), "
+          "payloads taken from real instances run with the same parameters (so End can succeed) or junk. Oracle 1: a reference model of the documented machine (new / running(k timeouts) / ended) predicts the error class of every call and Running(). "
+          "Oracle 2 (non-interference, metamorphic): a twin instance receives only the calls the model accepts; the instance that additionally received the rejected calls must emit the same messages and callbacks and end with the same End result. Both are driven to End and re-checked after End. "
+          "Non-trivial = the sequence contains a call rejected for a state or index reason while running; distinct by draw-record hash."),
+    assumptions=["Start after End and Start with a too-short seed are outside the quantifier (documentation asks for a new instance per run)"],
+    jobs=[J("TestC10_StateMachine", 1500, 8000, shards=8)],
+)
+
 
 import c15_overlay
 import c20_build
